@@ -73,9 +73,14 @@ def run(ctx):
         elif k == 'order':
             a = '.'.join(str(d) for d in c['a'])
             b = '.'.join(str(d) for d in c['b'])
-            ia, ib = vu.convert_version_to_int(a), vu.convert_version_to_int(b)
-            got = 'eq' if ia == ib else ('lt' if ia < ib else 'gt')
+            ra, rb = call(vu.convert_version_to_int, a), call(vu.convert_version_to_int, b)
             n += 1
+            if ra[0] != 'ok' or rb[0] != 'ok':
+                ctx.violation({'kind': 'to_int-raises', 'got': ra[0] if ra[0] != 'ok' else rb[0]}, {'a': a, 'b': b, 'observed': [repr(ra), repr(rb)]},
+                              'convert_version_to_int(%r) / (%r) -> %s / %s on well-formed versions' % (a, b, ra, rb))
+                continue
+            ia, ib = ra[1], rb[1]
+            got = 'eq' if ia == ib else ('lt' if ia < ib else 'gt')
             if got != ref['ord']:
                 ctx.violation({'kind': 'order', 'want': ref['ord'], 'got': got}, {'a': a, 'b': b, 'ints': [ia, ib]},
                               'int(%s)=%d vs int(%s)=%d ordered %s, tuples are ordered %s' % (a, ia, b, ib, got, ref['ord']))
@@ -114,6 +119,10 @@ def run(ctx):
         else:
             got = call(vu.VersionPredicate, c['text'])
             n += 1
+            if got[0] == 'ValueError':
+                # ... and still malformed after the well-formed text it resembles (blanks removed) has been parsed
+                call(vu.VersionPredicate, ''.join(c['text'].split()))
+                got = call(vu.VersionPredicate, c['text'])
             if got[0] != 'ValueError':
                 ctx.violation({'kind': 'bad-predicate', 'got': got[0]}, {'predicate': c['text'], 'observed': repr(got)},
                               'VersionPredicate(%r) -> %s, specification ValueError' % (c['text'], got[0]))
@@ -132,8 +141,13 @@ def run(ctx):
         i = rnd.randrange(ln)
         b[i] = max(1 if i == 0 else 0, min(999, b[i] + rnd.choice([-1, 1, 0, 500, -500])))
         ta, tb = '.'.join(map(str, a)), '.'.join(map(str, b))
-        ia, ib = vu.convert_version_to_int(ta), vu.convert_version_to_int(tb)
+        ra, rb = call(vu.convert_version_to_int, ta), call(vu.convert_version_to_int, tb)
         z += 1
+        if ra[0] != 'ok' or rb[0] != 'ok':
+            ctx.violation({'kind': 'to_int-raises', 'got': ra[0] if ra[0] != 'ok' else rb[0]}, {'a': ta, 'b': tb},
+                          'convert_version_to_int(%r) / (%r) -> %s / %s on well-formed versions' % (ta, tb, ra[0], rb[0]))
+            continue
+        ia, ib = ra[1], rb[1]
         if vu.convert_version_to_str(ia) != ta or (ia < ib) != (a < b) or (ia == ib) != (a == b):
             ctx.violation({'kind': 'random-roundtrip-or-order'}, {'a': ta, 'b': tb, 'ints': [ia, ib]},
                           'round trip / order broken for %s (%d) vs %s (%d)' % (ta, ia, tb, ib))
